@@ -15,12 +15,15 @@ open Logg
     context around printImpl in Entry.print, and every function of the package that touches the
     pool takes exactly one context and returns exactly one (no second Put anywhere); group members are cloned before they are sorted,
     and the sort works on its parameter only; logger attributes are copied into the per-call
-    slice; the shared size hint is only touched through sync/atomic; one Write per record. -/
+    slice; the shared size hint is only touched through sync/atomic; one Write per record, with no way out
+    of printOut before it (a record is never dropped because another one is in flight), and the
+    destination list is walked to its end whatever its members answer. -/
 theorem model_facts :
     Gen.printBracket = ["Get", "set", "printImpl", "Put"] ∧
     ("Entry.print", 1, 1) ∈ Gen.printCtxPoolUse ∧ (∀ u ∈ Gen.printCtxPoolUse, u.2.1 = 1 ∧ u.2.2 = 1) ∧
     Gen.groupItemsCloned = true ∧ Gen.sortsItsParameter = true ∧ Gen.loggerAttrsCopied = true ∧
-    Gen.fixedSizeNonAtomicUses = 0 ∧ Gen.writesPerPrintOut = 1 := by decide
+    Gen.fixedSizeNonAtomicUses = 0 ∧ Gen.writesPerPrintOut = 1 ∧
+    Gen.printOutExitsBeforeWrite = 0 ∧ Gen.lwsWriteLoops = 1 ∧ Gen.lwsWriteEarlyExit = false := by decide
 
 theorem inv_run (payload : CallId → Bytes) (total : List Bytes) (w : World) (sched : List Nat)
     (h : Inv payload total w) : Inv payload total (run payload w sched) := by
